@@ -260,7 +260,7 @@ def gen_huge_lineage(rng):
     return versions, steps
 
 
-def gen_lineage(seed: int):
+def gen_lineage(seed: int, scale: int = 1):
     rng = Rng(seed, "lineage")
     if Rng(seed, "huge").chance(0.06):
         versions, steps = gen_huge_lineage(rng.sub("huge"))
@@ -274,7 +274,7 @@ def gen_lineage(seed: int):
         if any((t.kind in ("message", "array") and t.ext) for t, _ in reach):
             break
     cfg = g.cfg
-    k = r.weighted([(2, 5), (3, 4), (4, 2)])
+    k = r.weighted([(2, 5), (3, 4), (4, 2)]) if scale == 1 else r.weighted([(3, 3), (4, 3), (5, 2), (6, 2)])
     versions = [s]
     steps = []
     cur = s
@@ -291,12 +291,14 @@ def gen_lineage(seed: int):
 
 
 # --------------------------------------------------------------------- plans
-def gen_plan(seed: int):
-    versions, steps = gen_lineage(seed)
+def gen_plan(seed: int, scale: int = 1):
+    if scale > 1 and not Rng(seed, "scale").chance(0.34):
+        scale = 1
+    versions, steps = gen_lineage(seed, scale)
     k = len(versions)
     rng = Rng(seed, "fleet")
     newest = versions[-1].find("Packet")
-    nnodes = rng.randint(3, 6)
+    nnodes = rng.randint(3, 6) if scale == 1 else rng.randint(5, 9)
     nodes = []
     for i in range(nnodes):
         role = "producer" if i == 0 else rng.weighted([("producer", 3), ("relay", 3), ("sink", 4)])
@@ -308,7 +310,7 @@ def gen_plan(seed: int):
     nodes.append({"id": nnodes, "runtime": "ref", "role": "producer", "version": k - 1})  # reference producer (stub)
     events = []
     t = 0
-    nticks = rng.randint(12, 40) if sg.nbits(newest) < 8000 else rng.randint(3, 6)
+    nticks = (rng.randint(12, 40) * scale) if sg.nbits(newest) < 8000 else rng.randint(3, 6)
     styles = ["zero", "ones", "max", "min", "alt", "rand", "mixed", "mixed", "rand"]
     producers = [n["id"] for n in nodes if n["role"] == "producer"]
     receivers = [n["id"] for n in nodes if n["runtime"] != "ref"]
